@@ -1760,7 +1760,7 @@ lx_text_dispatch_classifier!(lx_str_call_classifier, 23,
 // the two small closers of a double-quoted string, called directly (cheap; C07: the payload computed by the
 // text scanner is what the closing token carries; C10: every start is closed; C16: suffix letter case)
 lx_harness! {
-    #[kani::unwind(4)]
+    #[kani::unwind(7)]
     fn lx_unterminated_str_direct() {
         let t = Txt::<1, 8>::any(PFX, &[]);
         kani::assume(t.n == 0);
@@ -1803,7 +1803,7 @@ lx_harness! {
 }
 
 lx_harness! {
-    #[kani::unwind(5)]
+    #[kani::unwind(7)]
     fn lx_double_quoted_literal_direct() {
         let t = Txt::<3, 16>::any(PFX, &['"']);
         let mut lx = setup(&t, &[LexerMode::Default, LexerMode::StringExpr { allow_stat: kani::any() }]);
